@@ -1,4 +1,15 @@
-import KinModel.Lemmas.C03Deep
+import KinModel.Lemmas.C03Normal
 open KinModel.Marshal
-#print axioms field_fix
-#print axioms stepMaplike_idem
+example : ¬ (JV.obj [("a", .num 1 0)]).same (.obj [("a", .num 2 0)]) := by
+  simp [JV.same, sameO, lookup]
+example : ¬ (JV.obj [("a", .num 1 0), ("b", .null)]).same (.obj [("a", .num 1 0)]) := by
+  simp [JV.same, sameO, lookup]
+example : ¬ (JV.obj [("a", .num 1 0)]).same (.obj [("a", .num 1 0), ("b", .null)]) := by
+  simp [JV.same, sameO, lookup]
+  exact ⟨"b", by simp⟩
+example : (JV.obj [("a", .num 1 0), ("b", .null)]).same (.obj [("b", .null), ("a", .num 1 0)]) := by
+  simp [JV.same, sameO, lookup]
+  intro k
+  by_cases h1 : k = "a" <;> by_cases h2 : k = "b" <;> simp [h1, h2]
+#print axioms rt_ninv
+#print axioms rt_inv
